@@ -210,7 +210,9 @@ IntCast(key) == IF key.k = "int" THEN key
                 ELSE IF key.k = "float" THEN IntV(Trunc(key.v[1], key.v[2]))
                 ELSE IF key.k = "str" /\ key.v \in DOMAIN PyIntTbl THEN IntV(PyIntTbl[key.v])
                 ELSE FailV
-StrOfInt(key) == IF key.k = "int" THEN StrV(ToString(key.v)) ELSE key      \* str(k) when serialising Dict[int, ...]
+StrOfInt(key) == IF key.k = "int" THEN StrV(ToString(key.v))               \* str(k) when serialising Dict[int, ...]
+                 ELSE IF key.k = "bool" THEN StrV(IF key.v THEN "True" ELSE "False")
+                 ELSE IF key.k = "none" THEN StrV("None") ELSE key
 \* {cast(k): v for k, v in val.items()}: entries <<new key, value, index of the pair it came from>>
 RECURSIVE CastFold(_, _, _)
 CastFold(ps, i, acc) ==
